@@ -4,7 +4,7 @@ from vlib import *
 
 BUF = ["s_write", "s_write_slice", "s_read", "s_read_slice", "s_copy_from_u8", "s_copy_to_u8", "a_copy_from_u8", "a_copy_to_u8",
        "s_read_volatile_from_slice", "s_read_exact_from_slice", "s_read_from_cursor", "s_write_volatile_to_mutslice",
-       "s_write_all_to_mutslice", "s_write_to_cursor", "s_write_to_vec", "adapter_read_volatile", "adapter_write_volatile",
+       "s_write_all_to_mutslice", "s_write_to_cursor", "s_write_to_vec", "s_write_to_vec_used", "s_write_all_to_vec_used", "adapter_read_volatile", "adapter_write_volatile",
        "r_write", "r_read", "g_write", "g_write_slice", "g_read", "g_read_slice"]
 OBJ = ["s_write_obj", "s_read_obj", "r_write_obj", "r_read_obj", "g_write_obj", "g_read_obj"]
 ATOM = ["s_store", "s_load"]
@@ -31,6 +31,12 @@ def run(ctx):
             for g in range(8):
                 for lm in range(8):
                     prog.append({"op": "copy", "a": {"entry": e, "n": n, "gmod": g, "lmod": lm}})
+    # the atomic entries with the weaker orderings (alignment must be demanded whatever ordering is requested)
+    for e in ATOM2:
+        for o in (("relaxed", "release") if e.endswith("store") else ("relaxed", "acquire")):
+            for n in (1, 2, 4, 8):
+                for g in range(8):
+                    prog.append({"op": "copy", "a": {"entry": e, "n": n, "gmod": g, "lmod": 0, "ord": o}})
     events = run_harness("copyw", prog, os.path.join(WORK, "copyw.ev.ndjson"), ctx=ctx)
     singles = sum(1 for e in events if e["a"]["n"] in (1, 2, 4, 8) and e["r"]["gres"] % e["a"]["n"] == 0 and e["r"]["lres"] % e["a"]["n"] == 0
                   and e["a"]["entry"] not in ATOM2)
@@ -79,8 +85,16 @@ def machine(ctx):
     for e in entries:
         for n in (1, 2, 4, 8):
             prog.append({"op": "copy", "a": {"entry": e, "n": n, "gmod": 0, "lmod": 0}})
+            if e in ATOM2:
+                for o in (("relaxed", "release") if e.endswith("store") else ("relaxed", "acquire")):
+                    prog.append({"op": "copy", "a": {"entry": e, "n": n, "gmod": 0, "lmod": 0, "ord": o}})
             if n < 8 and e not in ATOM2:
                 prog.append({"op": "copy", "a": {"entry": e, "n": n, "gmod": n, "lmod": 8 - n}})
+            if ctx.tier == "thorough":
+                # every guest residue, two local residues: aligned and misaligned cases alike
+                for g in range(8):
+                    for lm in (0, 3):
+                        prog.append({"op": "copy", "a": {"entry": e, "n": n, "gmod": g, "lmod": lm}})
         if e in BUF:
             prog.append({"op": "copy", "a": {"entry": e, "n": 3, "gmod": 1, "lmod": 2}})
     prog_path = os.path.join(WORK, "copyw_mach.prog")
